@@ -142,8 +142,14 @@ func checkC17(c *Ctx, r *Report) {
 	keyParam := func(v ssa.Value) map[string]bool {
 		out := map[string]bool{}
 		a := sliceOf(v)
+		// AddEdge / RemoveEdge (g, from, to, kind, …): the role of a parameter is its position
+		roles := []string{"g", "from", "to", "kind", "meta"}
 		for p := range a.Params {
-			out[p.Name()] = true
+			for i, q := range p.Parent().Params {
+				if q == p && i < len(roles) {
+					out[roles[i]] = true
+				}
+			}
 		}
 		return out
 	}
@@ -286,44 +292,48 @@ func checkC17(c *Ctx, r *Report) {
 		var s2 []string
 		guardFound := false
 		// idiom: a loop over the remaining inner edges whose body returns/skips when a key with the target's suffix exists
-		ast.Inspect(fi.Decl, func(n ast.Node) bool {
-			rs, ok := n.(*ast.RangeStmt)
-			if !ok {
-				return true
-			}
-			hasSuffixTest, leaves := false, false
-			ast.Inspect(rs.Body, func(m ast.Node) bool {
-				switch x := m.(type) {
-				case *ast.CallExpr:
-					if calleeOfCall(fi.Pkg.TypesInfo, x) == "strings.HasSuffix" {
-						hasSuffixTest = true
-					}
-				case *ast.ReturnStmt:
-					leaves = true
-				case *ast.AssignStmt:
-					// flag idiom: stillLinked = true
-					if len(x.Rhs) == 1 {
-						if id, ok := x.Rhs[0].(*ast.Ident); ok && id.Name == "true" {
-							leaves = true
+		var guardPos []token.Pos
+		for _, rf := range w.astRegion(fi) {
+			ast.Inspect(rf.Decl, func(n ast.Node) bool {
+				rs, ok := n.(*ast.RangeStmt)
+				if !ok {
+					return true
+				}
+				hasSuffixTest, leaves := false, false
+				ast.Inspect(rs.Body, func(m ast.Node) bool {
+					switch x := m.(type) {
+					case *ast.CallExpr:
+						if calleeOfCall(fi.Pkg.TypesInfo, x) == "strings.HasSuffix" {
+							hasSuffixTest = true
+						}
+					case *ast.ReturnStmt:
+						leaves = true
+					case *ast.AssignStmt:
+						// flag idiom: stillLinked = true
+						if len(x.Rhs) == 1 {
+							if id, ok := x.Rhs[0].(*ast.Ident); ok && id.Name == "true" {
+								leaves = true
+							}
 						}
 					}
+					return true
+				})
+				deletes := containsNode(rs.Body, func(m ast.Node) bool {
+					cl, ok := m.(*ast.CallExpr)
+					if !ok {
+						return false
+					}
+					id, ok := cl.Fun.(*ast.Ident)
+					return ok && id.Name == "delete"
+				})
+				if hasSuffixTest && leaves && !deletes {
+					guardFound = true
+					s2 = append(s2, w.pos(rs.Pos()))
+					guardPos = append(guardPos, w.hostPos(fi, rs))
 				}
 				return true
 			})
-			deletes := containsNode(rs.Body, func(m ast.Node) bool {
-				cl, ok := m.(*ast.CallExpr)
-				if !ok {
-					return false
-				}
-				id, ok := cl.Fun.(*ast.Ident)
-				return ok && id.Name == "delete"
-			})
-			if hasSuffixTest && leaves && !deletes {
-				guardFound = true
-				s2 = append(s2, w.pos(rs.Pos()))
-			}
-			return true
-		})
+		}
 		if !guardFound {
 			v2 = "RemoveEdge(from, to, &kind) drops deps[from][to] and revDeps[to][from] although an edge of another kind may still link the pair: that edge stays among the source's outgoing edges but disappears from the target's incoming edges and from Parents()"
 		}
@@ -331,8 +341,8 @@ func checkC17(c *Ctx, r *Report) {
 		if guardFound {
 			for _, wr := range writes {
 				if wr.Fn == rmEdge && wr.Kind == "delete" && (wr.Field == "deps" || wr.Field == "revDeps") {
-					for _, gs := range s2 {
-						if !posBefore(gs, w.pos(wr.Pos)) {
+					for _, gp := range guardPos {
+						if dp := w.hostPosOfInstr(fi, wr.Ins); !(gp.IsValid() && gp < dp) {
 							v2 = fmt.Sprintf("%s: adjacency is deleted before the remaining-edge test", w.pos(wr.Pos))
 						}
 					}
@@ -369,7 +379,7 @@ func checkC17(c *Ctx, r *Report) {
 			sites = append(sites, w.pos(wr.Pos))
 			cl := wr.Ins.(*ssa.Call)
 			ka := sliceOf(cl.Call.Args[1])
-			if ka.Calls["(graphs.SymbolKey).BaseId"] && keyParam(cl.Call.Args[1])["key"] {
+			if ka.Calls["(graphs.SymbolKey).BaseId"] && keyParam(cl.Call.Args[1])["from"] { // RemoveNode(g, key): the first parameter after the receiver
 				got[wr.Field] = true
 			}
 		}
@@ -717,24 +727,25 @@ func checkC17(c *Ctx, r *Report) {
 		// incoming edges are filtered by target == key
 		viol := "incoming edges are not filtered by `desc.Edge.To.BaseId() != mapKey`"
 		var sites []string
-		ast.Inspect(fi.Decl, func(n ast.Node) bool {
-			is, ok := n.(*ast.IfStmt)
+		// some insertion into the result is only reached when the edge's target equals the queried key
+		allInstrs(fi.SSA, true, func(_ *ssa.Function, _ *ssa.BasicBlock, _ int, ins ssa.Instruction) {
+			mu, ok := ins.(*ssa.MapUpdate)
 			if !ok {
-				return true
+				return
 			}
-			be, isBin := is.Cond.(*ast.BinaryExpr)
-			if isBin && be.Op == token.NEQ && containsNode(be.X, func(m ast.Node) bool {
-				se, ok := m.(*ast.SelectorExpr)
-				return ok && se.Sel.Name == "To"
-			}) {
-				sites = append(sites, w.pos(is.Pos()))
-				if len(is.Body.List) == 1 {
-					if b, ok := is.Body.List[0].(*ast.BranchStmt); ok && b.Tok == token.CONTINUE {
+			for _, f := range guardsOf(mu) {
+				cnd, pol := unwrapNot(f.Cond, f.Pol)
+				bo, ok := cnd.(*ssa.BinOp)
+				if !ok || !((bo.Op == token.EQL && pol) || (bo.Op == token.NEQ && !pol)) {
+					continue
+				}
+				for _, side := range []ssa.Value{bo.X, bo.Y} {
+					if a := sliceOf(side); a.hasFieldNamed("To") && a.Calls["(graphs.SymbolKey).BaseId"] {
+						sites = append(sites, w.pos(mu.Pos()), w.pos(instrPos(f.From)))
 						viol = ""
 					}
 				}
 			}
-			return true
 		})
 		r.add("C17.d", "guardedby", fi.Key+":incoming-filter", "only edges that point at the queried node are listed as incoming", []string{fi.Key}, sites, viol)
 	}
